@@ -187,6 +187,7 @@ def h_abort(cfg):
     sort = cfg['sorts']
     d = [sym_num('d%d' % i, sort, 0, None, True) for i in range(2)]
     tb = sym_num('tb', sort, 0)
+    dw = sym_num('dw', sort, 0)
     stops = cfg['stops']
     for variant in ('single', 'split'):
         env = Environment()
@@ -204,15 +205,18 @@ def h_abort(cfg):
         env.process(ticker())
         env.process(bad())
         job = None
+        if 'proc' in stops:
+            def work():
+                yield env.timeout(dw)
+                return 'done'
+            job = env.process(work())
         plan = [stops[-1]] if variant == 'single' else list(stops)
+        if cfg.get('abandon') and variant == 'single':
+            plan = []          # reference: no stop at all, just run() (continued after the failure)
         for c in plan:
             for _ in range(3):
                 try:
                     if c == 'proc':
-                        def work():
-                            yield env.timeout(sym_num('dw', sort, 0))
-                            return 'done'
-                        job = job or env.process(work())
                         r = env.run(until=job)
                         check('c03.until-event-value', r == 'done', repr(r))
                     else:
@@ -224,6 +228,8 @@ def h_abort(cfg):
                 except Boom:
                     log.append(('failure', env.now))
                     cover('run-left-by-a-failure')
+                    if cfg.get('abandon'):
+                        break          # the stop is given up: nothing of it may remain (the clock must not be carried there later)
                 except Exception as ex:  # noqa
                     fail('no-raise', '%s: %s: %s' % (variant, type(ex).__name__, ex))
                     return
@@ -236,6 +242,7 @@ def h_abort(cfg):
             except Exception as ex:  # noqa
                 fail('no-raise', '%s: final run: %s: %s' % (variant, type(ex).__name__, ex))
                 return
+        log.append(('end', env.now))        # where the clock stands once nothing is left to do
         traces.append(log)
     a_, b_ = traces
     check('c03.split-same-length', len(a_) == len(b_), ([x[0] for x in a_], [x[0] for x in b_]))
@@ -591,6 +598,7 @@ def jobs(tier, seed):
     js.append({'harness': 'hubnet', 'cfg': {'names': ['alpha', 'bravo', 'charlie', 'delta-4', 'e'], 'n': 2}, 'weight': 5})
     for stops in ([2, 4], [2, 'proc'], [1, 2, 5]):
         js.append({'harness': 'abort', 'cfg': {'stops': stops, 'sorts': 'int'}, 'weight': 30})
+    js.append({'harness': 'abort', 'cfg': {'stops': [1000], 'sorts': 'int', 'abandon': True}, 'weight': 30})
     for what in ('and', 'or', 'fail', 'excvalue'):
         for sorts in ('int', 'real'):
             js.append({'harness': 'untilev', 'cfg': {'what': what, 'sorts': sorts}, 'weight': 20})
